@@ -201,7 +201,8 @@ class CHarness:
         lo.append("    (void) o; (void) s; (void) n; (void) p;")
         du.append("    (void) o;")
         if isinstance(it, pydsdl.UnionType):
-            lo.append("    { const uint64_t tag = rd64(s, n, p); o->_tag_ = (uint8_t) tag;")
+            # stored with the width of the generated tag member (a uint8_t cast would fold option 256 onto option 0)
+            lo.append("    { const uint64_t tag = rd64(s, n, p); o->_tag_ = (uint%d_t) tag;" % max(8, it.tag_field_type.bit_length))
             du.append("    emit64((uint64_t) o->_tag_);")
             for idx, f in enumerate(it.fields):
                 lo.append("    %sif (tag == %dU) {" % ("else " if idx else "", idx))
